@@ -1,0 +1,9 @@
+//go:build !verif
+
+package groth16
+
+import "github.com/consensys/gnark-crypto/ecc/bls12-381/fr"
+
+func verifToxicWaste(*toxicWaste) {}
+
+func verifProverRS(_, _ *fr.Element) {}
